@@ -742,7 +742,10 @@ def _labels_for_graph(g):
 
 
 def _exhaustive_one(ctx, n, parents, ranks, mode, key, walks):
-    times = [T0 + STEP * r for r in ranks]
+    # every third graph lives at the epoch (lowest rank = time 0): a timestamp of 0 is legal and must not be
+    # treated as "no timestamp" or fall under a default cut-off
+    base = 0 if (h64(key) % 3 == 0) else T0
+    times = [base + STEP * r for r in ranks]
     g = build_fast(parents, times, b"s%d" % ctx.seed)
     glabels = _labels_for_graph(g)
     nt = 0
